@@ -2954,7 +2954,7 @@ lyxp_expr_parse(const struct ly_ctx *ctx, const char *expr_str, size_t expr_len,
 {
     LY_ERR ret = LY_SUCCESS;
     struct lyxp_expr *expr;
-    size_t parsed = 0, tok_len;
+    size_t parsed = 0, tok_len, ws_len;
     enum lyxp_token tok_type;
     ly_bool prev_func_check = 0, prev_ntype_check = 0, has_axis;
     uint32_t tok_idx = 0;
@@ -3211,8 +3211,11 @@ lyxp_expr_parse(const struct ly_ctx *ctx, const char *expr_str, size_t expr_len,
             }
             tok_len = ncname_len;
 
+            /* whitespaces are allowed between AxisName and '::' */
+            for (ws_len = 0; is_xmlws(expr_str[parsed + tok_len + ws_len]); ++ws_len) {}
+
             has_axis = 0;
-            if (!strncmp(&expr_str[parsed + tok_len], "::", 2)) {
+            if (!strncmp(&expr_str[parsed + tok_len + ws_len], "::", 2)) {
                 /* axis */
                 LY_CHECK_ERR_GOTO(expr_parse_axis(&expr_str[parsed], ncname_len),
                         LOGVAL(ctx, LY_VCODE_XP_INEXPR, expr_str[parsed], (uint32_t)(parsed + 1), expr_str); ret = LY_EVALID,
@@ -3220,7 +3223,7 @@ lyxp_expr_parse(const struct ly_ctx *ctx, const char *expr_str, size_t expr_len,
                 tok_type = LYXP_TOKEN_AXISNAME;
 
                 LY_CHECK_GOTO(ret = exp_add_token(ctx, expr, tok_type, parsed, tok_len), error);
-                parsed += tok_len;
+                parsed += tok_len + ws_len;
 
                 /* '::' */
                 tok_len = 2;
@@ -3228,6 +3231,11 @@ lyxp_expr_parse(const struct ly_ctx *ctx, const char *expr_str, size_t expr_len,
 
                 LY_CHECK_GOTO(ret = exp_add_token(ctx, expr, tok_type, parsed, tok_len), error);
                 parsed += tok_len;
+
+                /* whitespaces are allowed between '::' and NodeTest */
+                while (is_xmlws(expr_str[parsed])) {
+                    ++parsed;
+                }
 
                 if (expr_str[parsed] == '*') {
                     ncname_len = 1;
